@@ -205,3 +205,60 @@ pub fn dec_with_rest<T: BinaryDeserializer + Sxv>(bytes: &[u8]) -> Result<(Strin
     }
     Ok((v.to_sx(), rest))
 }
+
+impl<T: Sxv, const N: usize> Sxv for [T; N] {
+    fn from_sx(s: &Sx) -> Self {
+        let v: Vec<T> = Vec::<T>::from_sx(s);
+        match v.try_into() {
+            Ok(a) => a,
+            Err(_) => panic!("array value of the wrong length"),
+        }
+    }
+    fn to_sx(&self) -> String {
+        match T::vec_to_bytes(self) {
+            Some(b) => format!("b{}", hex(&b)),
+            None => node(0, self.iter().map(|x| x.to_sx()).collect()),
+        }
+    }
+}
+impl<T: Sxv> Sxv for std::collections::LinkedList<T> {
+    fn from_sx(s: &Sx) -> Self {
+        s.list()[1..].iter().map(T::from_sx).collect()
+    }
+    fn to_sx(&self) -> String {
+        node(0, self.iter().map(|x| x.to_sx()).collect())
+    }
+}
+impl<T: Sxv> Sxv for std::rc::Rc<T> {
+    fn from_sx(s: &Sx) -> Self {
+        std::rc::Rc::new(T::from_sx(s))
+    }
+    fn to_sx(&self) -> String {
+        (**self).to_sx()
+    }
+}
+impl<T: Sxv> Sxv for std::sync::Arc<T> {
+    fn from_sx(s: &Sx) -> Self {
+        std::sync::Arc::new(T::from_sx(s))
+    }
+    fn to_sx(&self) -> String {
+        (**self).to_sx()
+    }
+}
+impl<A: Sxv, B: Sxv> Sxv for std::result::Result<A, B> {
+    // (1 ok) / (0 err), as the model's TResult
+    fn from_sx(s: &Sx) -> Self {
+        let l = s.list();
+        if l[0].atom() == "1" {
+            Ok(A::from_sx(&l[1]))
+        } else {
+            Err(B::from_sx(&l[1]))
+        }
+    }
+    fn to_sx(&self) -> String {
+        match self {
+            Ok(x) => format!("(1 {})", x.to_sx()),
+            Err(x) => format!("(0 {})", x.to_sx()),
+        }
+    }
+}
